@@ -19,6 +19,11 @@ LEVEL = 'model_checking'
 BATCH = 80
 
 PRELUDE = '''from enum import Enum
+from typing import TypeAlias
+
+Ints: TypeAlias = list[int]
+Rows: TypeAlias = list[list[int]]
+DS: TypeAlias = dict[str, int]
 
 class E(Enum):
 	A = 1
@@ -38,7 +43,7 @@ class C:
 		return [self.n]
 
 '''
-SIGNATURE = 'n: int, x: float, b: bool, s: str, xs: list[int], ys: list[str], d: dict[str, int], t: tuple[int, str], c: C, e: E, xss: list[list[int]], dl: dict[str, list[float]], cs: list[C]'
+SIGNATURE = 'n: int, x: float, b: bool, s: str, xs: list[int], ys: list[str], d: dict[str, int], t: tuple[int, str], c: C, e: E, xss: list[list[int]], dl: dict[str, list[float]], cs: list[C], xa: Ints, rows: Rows, da: DS, xo: list[int] | None, co: C | None, lo: list[C] | None'
 
 
 def describe(v) -> str:
@@ -67,7 +72,7 @@ def runtime_types(texts: list[str]) -> list[str]:
 	scope: dict = {}
 	exec(PRELUDE, scope)
 	C, E = scope['C'], scope['E']
-	env = {'n': 3, 'x': 1.5, 'b': True, 's': 'a,b', 'xs': [1, 2], 'ys': ['a', 'b'], 'd': {'a': 1}, 't': (1, 'z'), 'c': C(2), 'e': E.A, 'xss': [[1], [2]], 'dl': {'a': [1.5]}, 'cs': [C(1)]}
+	env = {'n': 3, 'x': 1.5, 'b': True, 's': 'a,b', 'xs': [1, 2], 'ys': ['a', 'b'], 'd': {'a': 1}, 't': (1, 'z'), 'c': C(2), 'e': E.A, 'xss': [[1], [2]], 'dl': {'a': [1.5]}, 'cs': [C(1)], 'xa': [1, 2], 'rows': [[1], [2]], 'da': {'a': 1}, 'xo': [3], 'co': C(1), 'lo': [C(1)]}
 	out = []
 	for text in texts:
 		try:
@@ -101,8 +106,8 @@ def _check(args) -> dict:
 		return {'failures': [{'clause': 'accepted', 'detail': f'{len(assigns)} assignments for {len(cases)} cases', 'text': cases[0]['text'], 'kind': 'batch'}], 'machinery': [], 'nodes': 0}
 	nodes = 0
 	for case, seen, assign in zip(cases, observed, assigns):
-		if seen != case['type']:
-			machinery.append(f'spec and CPython disagree on {case["text"]!r}: spec {case["type"]} vs run time {seen}')
+		if seen != case.get('rtype', case['type']):
+			machinery.append(f'spec and CPython disagree on {case["text"]!r}: spec {case.get("rtype", case["type"])} vs run time {seen}')
 			continue
 		for what, node in (('expression', assign.value), ('variable', assign.receivers[0])):
 			nodes += 1
